@@ -28,6 +28,22 @@
 //!   Result: {"replies": [frame ...] in arrival order, "wrote": number of messages written, "stalled": bool (the
 //!   writer had not finished after 3 s: the reader was released anyway), "log": [...]}
 //!   frame = hex (<= 1024 bytes) | "L:<len>:<crc32 hex>:<hex of the first 96 bytes>" | "CLOSED:<why>" | "TIMEOUT" | "SENDERR:<k>:<why>"
+//!
+//! WS frag mode (fragmented messages, RFC 6455 5.4): {"t":"ws", "mode":"frag", "barrier": id, "quiet": ms (default 250),
+//!   "mask": 8 hex digits (default 37fa213d), "msgs": [msg ...]}, msg = [item ...] | {"items": [item ...], "expect": n (default 1)}
+//!   item = segs                 one fragment of the message: opcode Text on the first, Continuation afterwards, FIN on the last
+//!        | "T0:segs" | "T1:segs" | "C0:segs" | "C1:segs"    explicit data frame (Text / Continuation, FIN bit 0 / 1)
+//!        | "P:segs" | "O:segs"   a Ping / an unsolicited Pong control frame (payload <= 125 bytes)
+//!        | "R:segs"              raw bytes written to the socket as they are (no frame header)
+//!        | "S:ms"                pause (<= 1000 ms)
+//!   The client is a raw WebSocket client over a TcpStream: HTTP upgrade by hand, every frame masked, minimal length
+//!   encoding, one write per item (TCP_NODELAY).  One message at a time: all its items are written, then frames are read
+//!   until `expect` text frames have arrived (at most 4 s) -- with "expect": 0 for `quiet` ms; everything that arrives is
+//!   recorded under that message.  After the last message the barrier call {"jsonrpc":"2.0","id":<barrier>,"method":
+//!   "nosuch"} (answered -32601, no handler) is written and frames are read until its reply arrived (at most 3 s) plus 30 ms.
+//!   Result: {"replies": [[frame ...] per message], "final": [frame ...], "alive": bool (the barrier was answered), "log": [...]}
+//!   frame = hex of a text frame's payload (frame_repr) | "PONG:hex" | "PING:hex" | "BIN:hex" | "CLOSE:hex" | "EOF" | "IOERR:<kind>"
+//!         | "SENDERR:<kind>" | "HANDSHAKE:<why>"
 use std::convert::Infallible;
 use std::io::{BufRead, Write};
 use std::sync::{Arc, Mutex};
@@ -521,6 +537,241 @@ async fn run_ws_pipeline(ep: &str, cfg: ServerConfig, methods: Methods, log: Log
 	json!({"replies": replies, "wrote": wrote.load(std::sync::atomic::Ordering::SeqCst), "stalled": stalled})
 }
 
+
+// ---------------------------------------------------------------- WS frag mode: raw frames over a TcpStream
+
+enum FragItem {
+	/// (first byte of the header, payload)
+	Frame(u8, Vec<u8>),
+	Raw(Vec<u8>),
+	Sleep(u64),
+}
+
+/// One masked client frame, minimal length encoding.
+fn client_frame(first: u8, payload: &[u8], key: [u8; 4]) -> Vec<u8> {
+	let n = payload.len();
+	let mut v = Vec::with_capacity(n + 14);
+	v.push(first);
+	if n < 126 {
+		v.push(0x80 | n as u8);
+	} else if n <= 0xFFFF {
+		v.push(0x80 | 126);
+		v.extend_from_slice(&(n as u16).to_be_bytes());
+	} else {
+		v.push(0x80 | 127);
+		v.extend_from_slice(&(n as u64).to_be_bytes());
+	}
+	v.extend_from_slice(&key);
+	v.extend(payload.iter().enumerate().map(|(i, b)| b ^ key[i & 3]));
+	v
+}
+
+fn frag_items(items: &[Value]) -> Vec<FragItem> {
+	let strs: Vec<&str> = items.iter().map(|s| s.as_str().expect("item is a string")).collect();
+	let last_plain = strs.iter().rposition(|s| !s.contains(':'));
+	let mut seen_plain = false;
+	let mut out = Vec::new();
+	for (k, s) in strs.iter().enumerate() {
+		match s.split_once(':') {
+			None => {
+				let fin = if Some(k) == last_plain { 0x80 } else { 0 };
+				let op = if seen_plain { 0x0 } else { 0x1 };
+				seen_plain = true;
+				out.push(FragItem::Frame(fin | op, segs(s)));
+			}
+			Some(("T0", r)) => out.push(FragItem::Frame(0x01, segs(r))),
+			Some(("T1", r)) => out.push(FragItem::Frame(0x81, segs(r))),
+			Some(("C0", r)) => out.push(FragItem::Frame(0x00, segs(r))),
+			Some(("C1", r)) => out.push(FragItem::Frame(0x80, segs(r))),
+			Some(("P", r)) => out.push(FragItem::Frame(0x89, segs(r))),
+			Some(("O", r)) => out.push(FragItem::Frame(0x8a, segs(r))),
+			Some(("R", r)) => out.push(FragItem::Raw(segs(r))),
+			Some(("S", r)) => out.push(FragItem::Sleep(r.parse::<u64>().unwrap_or(0).min(1000))),
+			Some((p, _)) => panic!("bad item prefix {p}"),
+		}
+	}
+	out
+}
+
+/// Raw reader of (unmasked) server frames with its own buffer.
+struct RawWs {
+	s: tokio::net::TcpStream,
+	buf: Vec<u8>,
+	dead: Option<String>,
+}
+
+impl RawWs {
+	/// One complete frame at the start of the buffer: (opcode, fin, payload).
+	fn take_frame(&mut self) -> Option<(u8, bool, Vec<u8>)> {
+		let b = &self.buf;
+		if b.len() < 2 {
+			return None;
+		}
+		let (len, mut off) = match b[1] & 0x7f {
+			126 => {
+				if b.len() < 4 {
+					return None;
+				}
+				(u16::from_be_bytes([b[2], b[3]]) as usize, 4)
+			}
+			127 => {
+				if b.len() < 10 {
+					return None;
+				}
+				(u64::from_be_bytes(b[2..10].try_into().unwrap()) as usize, 10)
+			}
+			n => (n as usize, 2),
+		};
+		if b[1] & 0x80 != 0 {
+			off += 4;
+		}
+		if b.len() < off + len {
+			return None;
+		}
+		let out = (b[0] & 0x0f, b[0] & 0x80 != 0, b[off..off + len].to_vec());
+		self.buf.drain(..off + len);
+		Some(out)
+	}
+
+	/// The next frame as its textual form, or None when `deadline` passed.  EOF / errors are reported once, then None.
+	async fn next(&mut self, deadline: tokio::time::Instant, partial: &mut Vec<u8>) -> Option<(String, bool, Vec<u8>)> {
+		use tokio::io::AsyncReadExt;
+		loop {
+			if let Some((op, fin, payload)) = self.take_frame() {
+				match op {
+					0x0 | 0x1 => {
+						partial.extend_from_slice(&payload);
+						if fin {
+							let whole = std::mem::take(partial);
+							return Some((frame_repr(&whole), true, whole));
+						}
+						continue;
+					}
+					0x2 => return Some((format!("BIN:{}", hex(&payload)), false, payload)),
+					0x8 => return Some((format!("CLOSE:{}", hex(&payload)), false, payload)),
+					0x9 => return Some((format!("PING:{}", hex(&payload)), false, payload)),
+					0xa => return Some((format!("PONG:{}", hex(&payload)), false, payload)),
+					x => return Some((format!("OPCODE:{x}"), false, payload)),
+				}
+			}
+			if self.dead.is_some() {
+				return None;
+			}
+			let mut tmp = [0u8; 8192];
+			match tokio::time::timeout_at(deadline, self.s.read(&mut tmp)).await {
+				Err(_) => return None,
+				Ok(Ok(0)) => {
+					self.dead = Some("EOF".to_string());
+					return Some(("EOF".to_string(), false, Vec::new()));
+				}
+				Ok(Ok(n)) => self.buf.extend_from_slice(&tmp[..n]),
+				Ok(Err(e)) => {
+					let why = format!("IOERR:{:?}", e.kind());
+					self.dead = Some(why.clone());
+					return Some((why, false, Vec::new()));
+				}
+			}
+		}
+	}
+}
+
+struct Frag {
+	msgs: Vec<(Vec<FragItem>, usize)>,
+	barrier: u64,
+	quiet: u64,
+	key: [u8; 4],
+}
+
+async fn run_ws_frag(ep: &str, cfg: ServerConfig, methods: Methods, f: Frag) -> Value {
+	use tokio::io::{AsyncReadExt, AsyncWriteExt};
+	let (addr, stop) = start_tcp(ep, cfg, methods).await;
+	let fail = |stop: Stopper, why: String| {
+		stop();
+		json!({"replies": [[why]], "final": [], "alive": false})
+	};
+	let mut s = match tokio::time::timeout(Duration::from_secs(5), tokio::net::TcpStream::connect(addr)).await {
+		Ok(Ok(s)) => s,
+		Ok(Err(e)) => return fail(stop, format!("HANDSHAKE:connect {e}")),
+		Err(_) => return fail(stop, "HANDSHAKE:connect timeout".to_string()),
+	};
+	let _ = s.set_nodelay(true);
+	let req = format!(
+		"GET / HTTP/1.1\r\nHost: {addr}\r\nConnection: Upgrade\r\nUpgrade: websocket\r\nSec-WebSocket-Version: 13\r\nSec-WebSocket-Key: dGhlIHNhbXBsZSBub25jZQ==\r\n\r\n"
+	);
+	if let Err(e) = s.write_all(req.as_bytes()).await {
+		return fail(stop, format!("HANDSHAKE:write {e}"));
+	}
+	// the response head; whatever follows it already belongs to the frame stream
+	let mut head = Vec::new();
+	let end = tokio::time::Instant::now() + Duration::from_secs(5);
+	let rest = loop {
+		if let Some(p) = head.windows(4).position(|w| w == b"\r\n\r\n") {
+			break head.split_off(p + 4);
+		}
+		let mut tmp = [0u8; 2048];
+		match tokio::time::timeout_at(end, s.read(&mut tmp)).await {
+			Ok(Ok(n)) if n > 0 => head.extend_from_slice(&tmp[..n]),
+			_ => return fail(stop, format!("HANDSHAKE:no response head ({} bytes)", head.len())),
+		}
+	};
+	if !head.starts_with(b"HTTP/1.1 101") {
+		return fail(stop, format!("HANDSHAKE:{}", String::from_utf8_lossy(&head[..head.len().min(60)])));
+	}
+	let mut ws = RawWs { s, buf: rest, dead: None };
+	let mut partial = Vec::new();
+	let mut replies: Vec<Vec<String>> = Vec::new();
+	for (items, expect) in f.msgs {
+		let mut got: Vec<String> = Vec::new();
+		for it in items {
+			let bytes = match it {
+				FragItem::Frame(first, payload) => client_frame(first, &payload, f.key),
+				FragItem::Raw(b) => b,
+				FragItem::Sleep(ms) => {
+					tokio::time::sleep(Duration::from_millis(ms)).await;
+					continue;
+				}
+			};
+			if let Err(e) = ws.s.write_all(&bytes).await {
+				got.push(format!("SENDERR:{:?}", e.kind()));
+				break;
+			}
+		}
+		let _ = ws.s.flush().await;
+		let deadline = tokio::time::Instant::now() + Duration::from_millis(if expect == 0 { f.quiet } else { 4000 });
+		let mut texts = 0usize;
+		while expect == 0 || texts < expect {
+			match ws.next(deadline, &mut partial).await {
+				Some((repr, is_text, _)) => {
+					got.push(repr);
+					if is_text {
+						texts += 1;
+					}
+				}
+				None => break,
+			}
+		}
+		replies.push(got);
+	}
+	// the barrier: is the connection still serving?
+	let call = format!("{{\"jsonrpc\":\"2.0\",\"id\":{},\"method\":\"nosuch\"}}", f.barrier);
+	let mut fin: Vec<String> = Vec::new();
+	let mut alive = false;
+	if let Err(e) = ws.s.write_all(&client_frame(0x81, call.as_bytes(), f.key)).await {
+		fin.push(format!("SENDERR:{:?}", e.kind()));
+	}
+	let mut deadline = tokio::time::Instant::now() + Duration::from_secs(3);
+	while let Some((repr, is_text, payload)) = ws.next(deadline, &mut partial).await {
+		fin.push(repr);
+		if is_text && !alive && frame_id(&payload) == Some(f.barrier) {
+			alive = true;
+			deadline = tokio::time::Instant::now() + Duration::from_millis(30);
+		}
+	}
+	drop(ws);
+	stop();
+	json!({"replies": replies, "final": fin, "alive": alive})
+}
+
 fn frames_body(frames: Vec<Vec<u8>>) -> BoxBody<Bytes, Infallible> {
 	let it = frames.into_iter().map(|f| Ok::<_, Infallible>(http_body::Frame::data(Bytes::from(f))));
 	BoxBody::new(StreamBody::new(futures_util::stream::iter(it)))
@@ -598,6 +849,7 @@ async fn run_case(line: &str) -> Value {
 	let log: Log = Arc::new(Mutex::new(Vec::new()));
 	let methods = module(log.clone());
 	let pipeline = v["mode"] == "pipeline";
+	let frag = v["mode"] == "frag";
 	let cfg = config(rq, rs, subid, if pipeline { v["buf"].as_u64().map(|n| n as u32) } else { None });
 	let list = |k: &str| -> Vec<Vec<u8>> {
 		v[k].as_array().map(|a| a.iter().map(|s| segs(s.as_str().unwrap())).collect()).unwrap_or_default()
@@ -612,6 +864,32 @@ async fn run_case(line: &str) -> Value {
 				}),
 			};
 			run_ws_pipeline(&ep, cfg, methods, log.clone(), list("msgs"), p).await
+		} else if v["t"] == "ws" && frag {
+			let msgs = v["msgs"]
+				.as_array()
+				.map(|a| {
+					a.iter()
+						.map(|m| match m {
+							Value::Array(items) => (frag_items(items), 1usize),
+							_ => (frag_items(m["items"].as_array().expect("msg.items")), m["expect"].as_u64().unwrap_or(1) as usize),
+						})
+						.collect()
+				})
+				.unwrap_or_default();
+			let mut key = [0x37u8, 0xfa, 0x21, 0x3d];
+			if let Some(m) = v["mask"].as_str() {
+				let b = unhex(m);
+				if b.len() == 4 {
+					key.copy_from_slice(&b);
+				}
+			}
+			let f = Frag {
+				msgs,
+				barrier: v["barrier"].as_u64().unwrap_or(9_999_999),
+				quiet: v["quiet"].as_u64().unwrap_or(250).min(3000),
+				key,
+			};
+			run_ws_frag(&ep, cfg, methods, f).await
 		} else if v["t"] == "ws" {
 			run_ws(&ep, cfg, methods, list("msgs")).await
 		} else {
